@@ -190,6 +190,10 @@ PINNED = [
     ("mod.rs", r"satisfy\(\|c: char\| c\.is_alphanumeric\(\) \|\| c == '_'\)", 1),
     ("field.rs", r"id\.parse::<i32>\(\)", 1),
     ("constant.rs", r"i64::from_str_radix\(d, 16\)", 1),
+    # the operand of the one negation of the parser files comes from an UNSIGNED conversion of a digit run
+    ("constant.rs", r"map_res\(hex_digit1, \|d\| i64::from_str_radix\(d, 16\)\.map\(IntConstant\)\)", 1),
+    ("constant.rs", r"map_res\(digit1, \|d\| \{\s*let d = FromStr::from_str\(d\)\?;\s*Ok::<_, ParseIntError>\(IntConstant\(d\)\)\s*\}\)", 1),
+    ("constant.rs", r"Ok\(\(input, if minus % 2 == 1 \{ IntConstant\(-v\.0\) \} else \{ v \}\)\)", 1),
 ]
 
 
@@ -541,12 +545,95 @@ def gen_reps(repo):
     return "\n".join(out) + "\n"
 
 
+# --------------------------------------------------------------------------- panic-capable sites (C16)
+# Every place of the parser files where Rust code CAN panic, with the function it stands in: unwrap / expect, the panic
+# macros, indexing and slicing (s[i], &s[a..b], split_at), unary minus on a value (debug build: overflow), binary + - *
+# and the compound assignments (debug build: overflow), / and % by anything but a non-zero literal.  Result-returning
+# conversions (from_str_radix, parse::<T>(), FromStr::from_str) are not sites unless unwrapped.  The inventory is emitted
+# as found; fam/idl/coq/Proofs/PanicSites.v proves it equal to the partial operations the model uses (Comb.checked_neg /
+# slice_p / map_unwrap, counted in the definitions of Parser.v) -- a new site has no modelled operation and breaks it.
+PANIC_MACROS = r"\b(?:unreachable|panic|todo|unimplemented|assert|assert_eq|assert_ne|debug_assert|debug_assert_eq|debug_assert_ne)!"
+
+
+def _code_of(body):
+    out, i = [], 0
+    while i < len(body):
+        j = _skip_literal(body, i)
+        if j is not None:
+            out.append('""'); i = j
+        else:
+            out.append(body[i]); i += 1
+    return "".join(out)
+
+
+def panic_sites_of(code):
+    cnt = {}
+
+    def add(k, n=1):
+        if n:
+            cnt[k] = cnt.get(k, 0) + n
+    add("unwrap", len(re.findall(r"\.\s*(?:unwrap|expect|unwrap_err|expect_err)\s*\(", code)))
+    add("panic", len(re.findall(PANIC_MACROS, code)))
+    add("slice", len(re.findall(r"[\w)\]]\s*\[", code)) + len(re.findall(r"\.\s*split_at(?:_mut)?\s*\(", code)))
+    n = len(code)
+    for m in re.finditer(r"[-+*/%]", code):
+        i, ch = m.start(), m.group(0)
+        nxt = code[i + 1:i + 2]
+        if ch == "-" and nxt == ">":
+            continue                                    # ->
+        if ch == "/" and (nxt == "/" or nxt == "*"):
+            continue                                    # comments are stripped already; be safe
+        j = i - 1
+        while j >= 0 and code[j].isspace():
+            j -= 1
+        prev = code[j] if j >= 0 else ""
+        k = i + 1
+        if nxt == "=":
+            k += 1                                      # compound assignment
+        while k < n and code[k].isspace():
+            k += 1
+        rest = code[k:]
+        binary = bool(prev) and (prev.isalnum() or prev in "_)]")
+        if not binary:
+            if ch == "-" and not re.match(r"\d", rest):
+                add("neg")                              # unary minus on a value (a negative literal cannot overflow)
+            continue                                    # unary * is a dereference, & * in patterns, `use x::*`
+        if ch in "/%":
+            if re.match(r"[1-9]\d*\b(?!\.)", rest) or re.match(r"0x[0-9a-fA-F]*[1-9a-fA-F]", rest):
+                continue                                # by a non-zero literal: cannot panic
+            add("div")
+        else:
+            # `a + b` in a trait bound / `impl A + B` is not arithmetic: the parser files have none inside function
+            # bodies; anything found here is counted
+            add("arith")
+    return sorted(cnt.items())
+
+
+def panic_inventory(repo):
+    fns, alias, order = parser_functions(repo)
+    return [(name, panic_sites_of(_code_of(fns[name][1]))) for name in order]
+
+
+def gen_panics(repo):
+    table = panic_inventory(repo)
+    out = ["(* GENERATED by tools/extract_idl.py from pilota-thrift-parser/src/parser/*.rs -- do not edit.",
+           "   src_panic_sites: for every function of the parser files the places where the Rust code can panic (unwrap = unwrap /",
+           "   expect; panic = panic macros; slice = indexing, slicing, split_at; neg = unary minus on a value; arith = binary",
+           "   + - * and compound assignments; div = / % by anything but a non-zero literal), with multiplicity *)",
+           "From Coq Require Import String List.", "Import ListNotations.", "Open Scope string_scope.", "",
+           "Definition src_panic_sites : list (string * list (string * nat)) :=", "  ["]
+    out.append(";\n".join("   (%s, [%s])" % (coq_str(n), "; ".join("(%s, %d)" % (coq_str(c), k) for c, k in cs)) for n, cs in table))
+    out.append("  ].")
+    return "\n".join(out) + "\n"
+
+
 GENERATORS = {
     "fam/idl/coq/Generated/IdlConsts.v": gen_consts,
     "fam/idl/coq/Generated/IdlUnicode.v": gen_unicode,
     "fam/idl/coq/Generated/IdlReps.v": gen_reps,
+    "fam/idl/coq/Generated/IdlPanics.v": gen_panics,
 }
 
 if __name__ == "__main__":
     repo = sys.argv[1] if len(sys.argv) > 1 else "/repo"
-    sys.stdout.write(gen_reps(repo) if "--reps" in sys.argv else gen_consts(repo))
+    sys.stdout.write(gen_panics(repo) if "--panics" in sys.argv else gen_reps(repo) if "--reps" in sys.argv else gen_consts(repo))
